@@ -21,6 +21,10 @@ SPEC['NB'] = (parser.DINT, 2, '@0x401/1/30')                           # neighbo
 SPEC['MB'] = (parser.INT, 2)                                           # neighbour in the Message Router
 SPEC['SC'] = (parser.INT, 1)                                           # scalar tag
 SPEC['BO'] = (parser.BOOL, N, '@0x401/1/31')
+for _k in range(6):
+    SPEC['X%d' % _k] = (parser.INT, 2)                                  # more than 10 auto-allocated tags in the Message Router
+SPEC['YY'] = (parser.DINT, 3, '@0x402/7/12')                            # a high attribute number in another object
+ALLTAGS = list(SPEC)
 TAGS = sim.setup(SPEC)
 LGX = device.lookup(2, 1)
 OBJ = device.lookup(0x401, 1)
@@ -189,3 +193,39 @@ for _t in TYPES:
            tier='quick' if tn in QUICK_GS else 'thorough', timeout=600, path_timeout=120, drives=DRIVES,
            bounds='Set Attribute Single of all %d elements of %s tag (bytes from reference LE encoder), then Read Tag Fragmented by name' % (N, tn),
            outside='')
+
+
+# ---- configuration: every configured tag is its own array (distinct Attributes), whatever the number/order of tags ------------------------------
+def do_distinct(t1, t2, v, w):
+    """two tags chosen among ALL configured tags (16 auto-allocated in the Message Router, several sharing @0x401/1, one in @0x402/7):
+    writing one never changes another; each keeps its own type and length"""
+    n1, n2 = ALLTAGS[t1 % len(ALLTAGS)], ALLTAGS[t2 % len(ALLTAGS)]
+    if n1 == n2 or n1 == 'BO' or n2 == 'BO':
+        return True
+    a1, a2 = sim.attribute(n1), sim.attribute(n2)
+    if a1 is a2 or device.resolve_tag(n1) == device.resolve_tag(n2):
+        return False
+    if a1.scalar or a2.scalar:
+        return True
+    lo, hi = sim.RANGE[a1.parser.__class__.__name__]
+    v = lo + v % (hi - lo + 1)
+    a2.value[:] = [3] * len(a2)
+    w_ = cpppo.dotdict()
+    w_.path = sim.tagpath(n1, 0)
+    w_.write_tag = {'type': a1.parser.tag_type, 'data': [v]}
+    LGX.request(w_)
+    r = cpppo.dotdict()
+    r.path = sim.tagpath(n2, 0)
+    r.read_tag = {'elements': len(a2)}
+    LGX.request(r)
+    return (w_.status == 0 and a1.value[0] == v and r.status == 0 and list(r.read_tag.data) == [3] * len(a2)
+            and r.read_tag.type == SPEC[n2][0].tag_type and len(a2) == SPEC[n2][1] and len(a1) == SPEC[n1][1])
+
+
+define(globals(), 'C03', 'configured_tags_are_distinct_arrays', ['t1', 't2', 'v', 'w'], "return do_distinct(t1, t2, v, w)",
+       ['0 <= t1 and 0 <= t2 and 0 <= v and 0 <= w <= 0'], timeout=1800, path_timeout=120, drives=DRIVES + ['cpppo.server.enip.logix.setup', 'cpppo.server.enip.logix.setup_tag',
+                                                                                                       'cpppo.server.enip.device.redirect_tag'],
+       symbolic=['t1, t2: any two of the %d configured tags' % (len(SPEC)), 'v: written value (mapped into the tag type range)'],
+       bounds='configuration of %d tags created by the real logix.setup (16 auto-allocated in the Message Router incl. attribute numbers >= 10, 9 sharing '
+              'instance @0x401/1, one at @0x402/7/12): every pair of distinct tags resolves to distinct Attributes, a write to one leaves the other\'s '
+              'values, type and length untouched' % len(SPEC), outside='other configurations')
